@@ -60,3 +60,9 @@ Theorem C04_upsampled_region_contains_position : forall u, 1 <= u ->
   0 <= us_dftshift u < us_region u /\ us_delta u (us_dftshift u) = 0.
 Proof. exact upsample_contains_position. Qed.
 Print Assumptions C04_upsampled_region_contains_position.
+
+(* ---- non-vacuity: a map whose first maximum is in the interior has a refinement neighbourhood of radius 2 (1 <= clip_r is satisfiable) ---- *)
+Example nv_interior_maximum :
+  let c := fun y x => if andb (y =? 3) (x =? 2) then 9 else (y + x) mod 3 in
+  argmax2 6 5 c = (3, 2) /\ clip_r 6 5 3 2 = 2 /\ 0 < com_s (refine_com 6 5 c 3 2).
+Proof. vm_compute. repeat split; reflexivity. Qed.
